@@ -662,6 +662,30 @@ pub fn execute(case: &FibexCase, st: &mut Stats) -> Exec {
     }
     // a file of n bytes yields at most n + 1 XML events
     let budget = 2 * total + 64;
+    // 1 load in 8 (decided by the content): the same path list once more first — a second load
+    // on the same thread must not be influenced by the first, and gets the same step budget
+    let twice = (total + case.files.len() as u64) % 8 == 5;
+    if twice {
+        st.inc("loads_repeated");
+        verif_hooks::set_budget(Some(budget));
+        let p2 = paths.clone();
+        if let Err(p) = guarded(|| gather_fibex_data(FibexConfig { fibex_file_paths: p2 }).is_some()) {
+            let _ = std::fs::remove_dir_all(&dir);
+            verif_hooks::set_budget(None);
+            return Exec { violations: vec![Violation::new("C12.b", &format!("panic@{}", panic_site(&p)), format!("gather_fibex_data panicked: {}", p))], hist: 0, model: false, steps: 0 };
+        }
+        if verif_hooks::exhausted() {
+            let _ = std::fs::remove_dir_all(&dir);
+            verif_hooks::set_budget(None);
+            return Exec { violations: vec![Violation::new("C12.c", "step-budget-exhausted", format!("the load used more than {} XML reader steps for {} bytes of input: a loop does not end", budget, total))], hist: 0, model: false, steps: 0 };
+        }
+    }
+    // the same file listed twice, now and then
+    if !paths.is_empty() && (total + 3 * case.files.len() as u64) % 16 == 7 {
+        st.inc("path_listed_twice");
+        let dup = paths[0].clone();
+        paths.push(dup);
+    }
     verif_hooks::set_budget(Some(budget));
     let r = guarded(|| gather_fibex_data(FibexConfig { fibex_file_paths: paths }).map(|m| (m.frame_map.len(), m.frame_map_with_key.len())));
     let exhausted = verif_hooks::exhausted();
